@@ -242,12 +242,23 @@ pub fn judge(hier: &Hier, q: &(Name, RecordType), honest_answer: &Message, out: 
         let validated_denial = recs.iter().any(|r| r.sec == 1 && r.proof == Proof::Secure && matches!(r.rtype, RecordType::NSEC | RecordType::NSEC3));
         let any_insecure = recs.iter().any(|r| r.sec == 1 && r.proof == Proof::Insecure);
         let foreign_sig = recs.iter().any(|r| r.sec == 1 && r.proof == Proof::Insecure && r.sig.as_ref().map(|(_, n)| !n.zone_of(&r.owner)).unwrap_or(false));
+        // an NSEC/NSEC3 that is itself not authenticated, next to an authenticated record of
+        // another type at the same owner (the validator picks NSECs by "some Secure record has
+        // this owner")
+        let unauth_nsec_beside_secure = recs.iter().any(|r| {
+            r.sec == 1
+                && matches!(r.rtype, RecordType::NSEC | RecordType::NSEC3)
+                && r.proof != Proof::Secure
+                && recs.iter().any(|o| o.sec == 1 && o.sig.is_none() && o.owner == r.owner && o.rtype != r.rtype && o.proof == Proof::Secure)
+        });
         let pc = if validated_denial {
             "validated-denial"
         } else if any_insecure && foreign_sig {
             "authority-rrsig-signer-not-enclosing-owner"
         } else if any_insecure {
             "insecure-authority"
+        } else if unauth_nsec_beside_secure {
+            "unauthenticated-nsec-beside-secure-record-of-same-owner"
         } else if recs.iter().any(|r| r.sec == 1) {
             "unvalidated-authority"
         } else {
